@@ -546,6 +546,7 @@ package statedb
 //@   ensures @updates-committed it.iter != nil && it.iter.right.iter != nil && srcOf(it.iter.right.iter.next) == croot(txn)[tposOf(it.table)].indexes[0]
 //@   ensures @deletes-committed it.iter.left.iter != nil && srcOf(it.iter.left.iter.next) == croot(txn)[tposOf(it.table)].indexes[2]
 //@   ensures @cursors-kept it.revision == old(it.revision) && it.deleteRevision == old(it.deleteRevision)
+//@   ensures @nothing-buffered-from-an-earlier-snapshot !it.iter.left.ok && !it.iter.right.ok
 
 // Next: with nothing buffered and the watch still open it delivers nothing, returns that
 // open watch and changes no cursor; otherwise it refreshes from the committed state and
@@ -592,6 +593,7 @@ package statedb
 //@   ensures @holds-exactly-its-table-locks ptrto(writeTxnHandle, unboxptr(result)).writeTxnState != nil && GH_smus[ptrto(writeTxnHandle, unboxptr(result)).writeTxnState.smus] && unchangedExcept(GH_smus, ptrto(writeTxnHandle, unboxptr(result)).writeTxnState.smus)
 //@   ensureslocal @holds-table-locks GH_smus[txn.smus] && !GH_held[addr(db.mu)]
 //@   atstore tableEntry requires @only-private-entry-copies-are-written fresh($p)
+//@   atcall panic@* requires @never-gives-up-while-holding-the-table-locks !GH_smus[txn.smus]
 //@   ensureslocal @works-on-a-private-copy-of-the-root (fresh(arr(txn.tableEntries)) || cap(txn.tableEntries) == 0) && len(txn.tableEntries) == len(*txn.oldRoot)
 //@   loop 2 invariant @root-copy-kept fresh(arr(txn.tableEntries)) || cap(txn.tableEntries) == 0
 //@   loop 2 invariant @root-copy-length len(txn.tableEntries) == len(*txn.oldRoot)
